@@ -81,6 +81,7 @@ func (c *ExecCtx) evalCall(st *State, call *ast.CallExpr) []Val {
 	}
 	sig := fn.Type().(*types.Signature)
 	args := c.evalArgs(st, call, sig, nil)
+	c.runBeforeCallAnchors(st, fn, call, recv, args)
 	res := c.dispatch(st, fn, recv, args, call.Pos(), call)
 	c.runCallAnchors(st, fn, call, res)
 	return res
